@@ -7,6 +7,7 @@ import (
 	"fmt"
 	"os"
 	"path/filepath"
+	"sort"
 	"strings"
 	"sync"
 	"time"
@@ -282,6 +283,50 @@ func sqlCmd(args []string) {
 				if r == "PANIC" || r == "HANG" {
 					st.dead[h] = true
 				}
+			}
+		case "SQLCHURN":
+			// n goroutines, each: sql.Open, one query, Close — iters times, all on one data source
+			id, ds, opts := t.next(), t.next(), t.next()
+			n, iters := t.int(), t.int()
+			text := t.str()
+			dsn := dsnOf(ds, opts)
+			var wg sync.WaitGroup
+			var mu sync.Mutex
+			counts := map[string]int{}
+			for g := 0; g < n; g++ {
+				wg.Add(1)
+				go func() {
+					defer wg.Done()
+					for k := 0; k < iters; k++ {
+						r := withWatchdog(wd, func() string {
+							db, err := sql.Open("updog", dsn)
+							if err != nil {
+								return "OPENERR"
+							}
+							defer db.Close()
+							rows, err := db.Query(text)
+							if err != nil {
+								return "ERR"
+							}
+							return fmtRows(rows)
+						})
+						mu.Lock()
+						counts[r]++
+						mu.Unlock()
+						if r == "HANG" || r == "PANIC" {
+							return
+						}
+					}
+				}()
+			}
+			wg.Wait()
+			var keys []string
+			for k := range counts {
+				keys = append(keys, k)
+			}
+			sort.Strings(keys)
+			for _, k := range keys {
+				pr("CHURN %s %d %s\n", id, counts[k], k)
 			}
 		case "SQLCLOSE":
 			h := t.next()
